@@ -175,7 +175,7 @@ for _n, _p in ((0, 0), (1, 0), (1, 1), (2, 1), (2, 2), (2, 3)):
       props=["C16", "C18", "C07", "C01", "C02"], cost=100, tiers=("quick", "thorough") if (_n, _p) != (2, 2) else ("thorough",))
 U("cfg_init", entry="h_cfg_init", func="cfg_init", cbmc=unw(6) + OOM + LEAK, remove=["cfg_dupopt_array", "cfg_init_defaults"],
   carriers=["carriers/cfg_dupopt_array.c", "carriers/cfg_init_defaults.c"], label="proof (loop-free; callees by contract)", props=["C16", "C12", "C01", "C18", "C07", "C02"], cost=10, **SCH)
-U("cfg_free", entry="h_cfg_free", func="cfg_free, cfg_free_opt_array, cfg_free_value, cfg_free_searchpath", cbmc=unw(6) + NOOOM + LEAK, nondet_static=r".*confuse\.c:.*",
+U("cfg_free", entry="h_cfg_free", func="cfg_free, cfg_free_opt_array, cfg_free_value, cfg_free_searchpath", cbmc=unw(6) + NOOOM + LEAK,
   label="bounded(one option without values; optional fields present or absent; root or section)", props=["C07", "C08", "C02"], cost=20, **SCH)
 U("getopt_leaf", entry="h_getopt_leaf", func="cfg_getopt_leaf", cbmc=unw(6) + NOOOM, label="bounded(2 options, 1-byte names over all bytes)", props=["C01", "C11", "C02"], cost=10, **SCH)
 U("addopt", entry="h_addopt", func="cfg_addopt", cbmc=unw(6) + OOM, label="bounded(<= 2 existing keys; any allocation may fail)", props=["C01", "C18", "C02"], cost=30, **SCH)
